@@ -29,6 +29,7 @@ Inductive case :=
 | CClaimKey (p : policy) (secret : bytes) (obs : option (key * bytes))
 (* a sequence of imports into ONE cache (starting empty), then the entry filed under [id] *)
 | CSeq (steps : list (bool * bytes * import_opts)) (id : bytes) (lo hi : Z) (obs : option oentry)
+       (cmds : list (bytes * bytes))      (* the whole command map afterwards: key, session id *)
 (* strconv round trip used by the expiry: claimExpiration on a policy holding SessionExpires = s *)
 | CExpiry (s : bytes) (fallback_ns : Z) (lo hi : Z) (obs : oexp)
 (* MintClaimSession; [sess_exp] is the SessionExpires integer found in the claim text (0 if none),
@@ -64,6 +65,11 @@ Definition smap_eqb (model obs : smap) : bool :=
 Definition mem_bytes (x : bytes) (l : list bytes) : bool := existsb (bytes_eqb x) l.
 Definition set_eqb (a b : list bytes) : bool :=
   forallb (fun x => mem_bytes x b) a && forallb (fun x => mem_bytes x a) b.
+
+Definition mem_pair (x : bytes * bytes) (l : list (bytes * bytes)) : bool :=
+  existsb (fun y => bytes_eqb (fst x) (fst y) && bytes_eqb (snd x) (snd y)) l.
+Definition pairs_eqb (a b : list (bytes * bytes)) : bool :=
+  forallb (fun x => mem_pair x b) a && forallb (fun x => mem_pair x a) b.
 
 Definition exp_matches (m : expiry) (o : oexp) (lo hi : Z) : bool :=
   match m, o with
@@ -123,8 +129,10 @@ Definition check_case (c : case) : bool :=
       | Err, None => true
       | _, _ => false
       end
-  | CSeq steps id lo hi obs =>
-      match cache_lookup id (import_seq steps []), obs with
+  | CSeq steps id lo hi obs cmds =>
+      let s := import_seq steps cstate_empty in
+      pairs_eqb (cs_cmds s) cmds &&
+      match cache_lookup id (cs_entries s), obs with
       | Some e, Some e' => entry_matches e e' lo hi
       | None, None => true
       | _, _ => false
